@@ -150,6 +150,95 @@ pub fn gen_mesh(r: &mut Rng, lat: bool) -> ((Vec<P3>, Vec<[u32; 3]>), bool) {
     (m, convex)
 }
 
+
+/// exact AABB extents `maxs - mins`, computed as the real code does (component-wise min/max, one subtraction)
+fn extents3(pts: &[P3]) -> [f64; 3] {
+    let mut lo = [f64::INFINITY; 3]; let mut hi = [f64::NEG_INFINITY; 3];
+    for p in pts { for c in 0..3 { lo[c] = lo[c].min(p[c]); hi[c] = hi[c].max(p[c]); } }
+    [hi[0] - lo[0], hi[1] - lo[1], hi[2] - lo[2]]
+}
+/// orient every triangle of a convex closed mesh outwards (w.r.t. the vertex centroid)
+fn orient_outward(m: &mut (Vec<P3>, Vec<[u32; 3]>)) {
+    let mut c = d3::Vector::new(0.0, 0.0, 0.0);
+    for p in &m.0 { c += p.coords; }
+    let c = P3::from(c / m.0.len() as f64);
+    for t in m.1.iter_mut() {
+        let (a, b, cc) = (m.0[t[0] as usize], m.0[t[1] as usize], m.0[t[2] as usize]);
+        if (b - a).cross(&(cc - a)).dot(&(c - a)) > 0.0 { t.swap(1, 2); }
+    }
+}
+
+/// Meshes whose AABB extents tie EXACTLY.  `pattern`: 0 x==y>z, 1 x==z>y, 2 y==z>x, 3 x==y==z.
+/// `thin`: 0 → the small extent is exactly 0 (flat sheet in a coordinate plane), otherwise the small extent is
+/// `e / ratio` (thin plate: closed convex solids and tilted zero-thickness sheets).  The mesh is built in the unit
+/// cube `[0,1]^3`, scaled by the extents and shifted by `mins`; the tie is verified on the final floats (the
+/// extents the real code computes), falling back to `mins = 0` when a generic float shift would break it.
+/// Returns (mesh, closed convex solid?).
+pub fn gen_tie_mesh(r: &mut Rng, lat: bool, pattern: usize, thin: usize, res: u32) -> ((Vec<P3>, Vec<[u32; 3]>), bool) {
+    // tied (large) extent: lattice values, dyadic "random" values k/1024, or a generic float (then mins = 0)
+    let generic = !lat && r.below(3) == 0;
+    let e: f64 = if lat { *r.pick(&[0.5, 1.0, 2.0, 3.0, 4.0]) } else if generic { r.logu(0.05, 50.0) } else { (11 + r.below(60000)) as f64 / 1024.0 };
+    // keep res * ratio <= 64: a (wrong) grid that takes the small extent as reference stays below ~70k cells
+    let ratio: f64 = if res <= 4 { *r.pick(&[2.0, 4.0, 8.0, 16.0]) } else if res <= 8 { *r.pick(&[2.0, 4.0, 8.0]) } else { *r.pick(&[2.0, 4.0]) };
+    let t: f64 = if pattern == 3 { e } else if thin == 0 { 0.0 } else { e / ratio };
+    let p = |x: f64, y: f64, z: f64| P3::new(x, y, z);
+    // canonical unit-cube shape with extents (1, 1, 1) in (u, v, w); w is the thin axis
+    let (mut m, solid): ((Vec<P3>, Vec<[u32; 3]>), bool) = if thin == 0 && pattern != 3 {
+        match r.below(3) {
+            0 => ((vec![p(0., 0., 0.), p(1., 0., 0.), p(1., 1., 0.), p(0., 1., 0.)], vec![[0, 1, 2], [0, 2, 3]]), false),
+            1 => ((vec![p(0.5, 0., 0.), p(1., 0.5, 0.), p(0.5, 1., 0.), p(0., 0.5, 0.)], vec![[0, 1, 2], [0, 2, 3]]), false),
+            _ => { // 2 x 2 grid sheet
+                let mut pts = Vec::new(); let mut idx = Vec::new();
+                for j in 0..3 { for i in 0..3 { pts.push(p(i as f64 * 0.5, j as f64 * 0.5, 0.)); } }
+                for j in 0..2u32 { for i in 0..2u32 { let a = j * 3 + i; idx.push([a, a + 1, a + 4]); idx.push([a, a + 4, a + 3]); } }
+                ((pts, idx), false) }
+        }
+    } else {
+        match if thin == 0 { 3 } else { r.below(4) } {
+            0 => { let mut b = Cuboid::new(d3::Vector::new(0.5, 0.5, 0.5)).to_trimesh();
+                   for q in b.0.iter_mut() { *q = p(q.x + 0.5, q.y + 0.5, q.z + 0.5); }
+                   (b, true) }
+            1 => ((vec![p(1., 0.5, 0.5), p(0., 0.5, 0.5), p(0.5, 1., 0.5), p(0.5, 0., 0.5), p(0.5, 0.5, 1.), p(0.5, 0.5, 0.)],
+                   vec![[0, 2, 4], [2, 1, 4], [1, 3, 4], [3, 0, 4], [2, 0, 5], [1, 2, 5], [3, 1, 5], [0, 3, 5]]), true),
+            2 => ((vec![p(0., 0., 0.), p(1., 1., 0.), p(1., 0., 1.), p(0., 1., 1.)], vec![[0, 1, 2], [0, 3, 1], [0, 2, 3], [1, 3, 2]]), true),
+            // tilted zero-thickness sheet: the plane w = u (extents 1 x 1 x 1 before scaling)
+            _ => ((vec![p(0., 0., 0.), p(1., 0., 1.), p(1., 1., 1.), p(0., 1., 0.)], vec![[0, 1, 2], [0, 2, 3]]), false),
+        }
+    };
+    let mins = if generic { [0.0; 3] } else if lat { [r.coord(true, 5.0), r.coord(true, 5.0), r.coord(true, 5.0)] }
+               else { [r.range(-100000, 100000) as f64 / 1024.0, r.range(-100000, 100000) as f64 / 1024.0, r.range(-100000, 100000) as f64 / 1024.0] };
+    let place = |m: &(Vec<P3>, Vec<[u32; 3]>), mins: [f64; 3]| -> (Vec<P3>, Vec<[u32; 3]>) {
+        let pts = m.0.iter().map(|q| {
+            let (u, v, w) = (q.x * e, q.y * e, q.z * t);
+            match pattern { 1 => p(u + mins[0], w + mins[1], v + mins[2]), 2 => p(w + mins[0], u + mins[1], v + mins[2]), _ => p(u + mins[0], v + mins[1], w + mins[2]) }
+        }).collect();
+        (pts, m.1.clone())
+    };
+    let tied = |pts: &[P3]| { let d = extents3(pts); match pattern {
+        0 => d[0] == d[1] && d[0] > d[2], 1 => d[0] == d[2] && d[0] > d[1], 2 => d[1] == d[2] && d[1] > d[0], _ => d[0] == d[1] && d[1] == d[2] } };
+    let mut out = place(&m, mins);
+    if !tied(&out.0) { out = place(&m, [0.0; 3]); }
+    assert!(tied(&out.0), "tie generator broken");
+    m = out;
+    if solid { orient_outward(&mut m); }
+    (m, solid)
+}
+
+/// 2-D closed polylines whose AABB extents tie exactly (square, diamond, octagon) or are flat (degenerate closed
+/// polyline on a horizontal / vertical line)
+fn gen_tie_poly2(r: &mut Rng, lat: bool) -> Vec<d2::Point<f64>> {
+    let e: f64 = if lat { *r.pick(&[0.5, 1.0, 2.0, 3.0, 4.0]) } else { (11 + r.below(60000)) as f64 / 1024.0 };
+    let raw: Vec<(f64, f64)> = match r.below(5) {
+        0 => vec![(0., 0.), (1., 0.), (1., 1.), (0., 1.)],
+        1 => vec![(0.5, 0.), (1., 0.5), (0.5, 1.), (0., 0.5)],
+        2 => vec![(0.25, 0.), (0.75, 0.), (1., 0.25), (1., 0.75), (0.75, 1.), (0.25, 1.), (0., 0.75), (0., 0.25)],
+        3 => vec![(0., 0.), (0.5, 0.), (1., 0.), (0.5, 0.)],
+        _ => vec![(0., 0.), (0., 0.5), (0., 1.), (0., 0.5)],
+    };
+    let (tx, ty) = if lat { (r.coord(true, 5.0), r.coord(true, 5.0)) } else { (r.range(-100000, 100000) as f64 / 1024.0, r.range(-100000, 100000) as f64 / 1024.0) };
+    raw.iter().map(|(x, y)| d2::Point::new(x * e + tx, y * e + ty)).collect()
+}
+
 pub fn gen(r: &mut Rng, thorough: bool) -> Vec<(String, String)> {
     let n = if thorough { 240 } else { 60 };
     let mut v = Vec::new();
@@ -171,6 +260,30 @@ pub fn gen(r: &mut Rng, thorough: bool) -> Vec<(String, String)> {
             let n = poly.len();
             let res2 = *r.pick(&[8u32, 16, 21, 32, 50]);
             v.push(("voxelize2".into(), format!("{} {} {} {} {} {}", res2, r.below(3), n, poly.iter().map(d2::hp).collect::<Vec<_>>().join(" "), n,
+                (0..n).map(|i| format!("{} {}", i, (i + 1) % n)).collect::<Vec<_>>().join(" "))));
+        }
+        // exactly tied AABB extents (the choice of the reference extent): flat sheets, thin plates, cubes; every
+        // pattern x {flat, thin, thin} x fill mode x {lattice, random} comes round within 36 iterations
+        for rep in 0..2 {
+            let j = it / 2; // `it % 2` selects lattice / random: keep it independent of pattern, thinness and fill mode
+            let pattern = (2 * j + rep) % 4; let thin = (j / 2) % 3; let fm = (j / 6) % 3;
+            let res = *r.pick(&[4u32, 5, 8, 10, 16]);
+            let (m, solid) = gen_tie_mesh(r, lat, pattern, thin, res);
+            let ms = hmesh(&m);
+            v.push(("voxelize3".into(), format!("{} {} {} {}", res, fm, ms, if solid { "1" } else { "0" })));
+            if it % 5 == 0 && rep == (it / 5) % 2 {
+                let maxh = *r.pick(&[1u32, 2, 4, 8]);
+                v.push(("acd3".into(), format!("{} {} {} {} {} {} {}", maxh, res, fm, hx(0.01), 2, 2, ms)));
+            }
+            if it % 11 == 1 && rep == (it / 11) % 2 {
+                v.push(("hulls3".into(), format!("{} {} {} {} {} {} {}", 2, res.min(10), fm, hx(0.05), 2, 2, ms)));
+            }
+        }
+        {
+            let poly = gen_tie_poly2(r, lat);
+            let n = poly.len();
+            let res2 = *r.pick(&[4u32, 5, 8, 16, 21, 32]);
+            v.push(("voxelize2".into(), format!("{} {} {} {} {} {}", res2, it % 3, n, poly.iter().map(d2::hp).collect::<Vec<_>>().join(" "), n,
                 (0..n).map(|i| format!("{} {}", i, (i + 1) % n)).collect::<Vec<_>>().join(" "))));
         }
     }
